@@ -11,6 +11,12 @@ Theorem C04_clean_keeps_shared_arc : udp_clean_keeps_shared_arc = true.
 Proof. reflexivity. Qed.
 Print Assumptions C04_clean_keeps_shared_arc.
 
+(* announce looks a torrent's cell up and, on a miss, creates it under ONE lock (upgradable read,
+   upgraded; entry().or_default() does not overwrite): the model's IAnn1 is one instruction *)
+Theorem C04_get_or_create_is_atomic : udp_announce_get_or_create_atomic = true.
+Proof. reflexivity. Qed.
+Print Assumptions C04_get_or_create_is_atomic.
+
 (* EVERY program of announces, scrapes and cleaning passes, ANY number of threads, EVERY
    schedule: the run never fails, and its events are a run of the sequential reference tracker
    in which every instruction is a stutter or the single atomic effect of its operation
